@@ -263,6 +263,47 @@ def engine_r_t(kw, n_inputs, chunks, pool_stride=1):
             "dylib": os.path.basename(so)}, list(best.values()), modules
 
 
+def confirm_in_real_host(kw, classes):
+    """Engine N runs the expander on proc-macro2's fallback, outside a compiler. A panic (or a
+    message-less compile_error!) it reports is only a verdict if the shipped macro does the same
+    inside real rustc on the minimised input: otherwise it is an artefact of the stub (e.g. code
+    that legitimately uses a proc_macro-only API). Returns (confirmed, unconfirmed)."""
+    confirmed, unconfirmed = [], []
+    todo = [c for c in classes if c.get("kind") in ("panic", "nomsg") and c.get("replay")]
+    if not todo:
+        return classes, []
+    so = build_real_dylib(kw["repo"], os.path.join(kw["out"], "r-target-stable"))
+    d = os.path.join(kw["out"], "engine-r-confirm")
+    shutil.rmtree(d, ignore_errors=True)
+    os.makedirs(d)
+    for c in classes:
+        if c not in todo:
+            confirmed.append(c)
+            continue
+        try:
+            rf = json.load(open(c["replay"]))
+            req = rf["plan"]["reqs"][rf["plan"]["steps"][-1]["req"]]
+        except (OSError, ValueError, KeyError, IndexError):
+            confirmed.append(c)
+            continue
+        body = (f"#[derive_ex({req['attr']})]\n{req['item']}" if req["mode"] == "attr" else f"#[derive(Ex)]\n{req['item']}")
+        src = os.path.join(d, "c.rs")
+        open(src, "w").write("#![allow(warnings)]\nmod m0 {\nuse ::derive_ex::{derive_ex, Ex};\n" + body + "\n}\n")
+        err = _rustc_metadata(kw["rustc"], so, src, d, timeout=120)
+        rx = PANIC_RE if c["kind"] == "panic" else NOMSG_RE
+        if err is None or rx.search(err):
+            confirmed.append(dict(c, confirmed_in_real_host=True))
+        else:
+            unconfirmed.append(dict(c, detail=c.get("detail", "") + " (engine N only: the shipped macro inside real rustc "
+                                    "does not do this on the same input; stub artefact or input rustc never hands to the macro)"))
+            try:
+                os.remove(c["replay"])
+            except OSError:
+                pass
+    shutil.rmtree(d, ignore_errors=True)
+    return confirmed, unconfirmed
+
+
 def replay_real(kw, path):
     """Replays an engine-R replay file: one module, the shipped dylib, real rustc."""
     rf = json.load(open(path))
